@@ -66,70 +66,99 @@ def keyNameOk (n : Node) : Bool :=
 def isStrLit : Node → Bool | .strLit _ _ => true | _ => false
 def isBoolLit : Node → Bool | .boolLit _ _ => true | _ => false
 
-/-- the `*Checking` functions of the registered builtins (and the harness's probes) -/
-def builtinCheck (oracle : Bytes → Option Bytes) (file : Bytes) (c : CallInfo) : CM Unit :=
+/-- what a successful checker does to the state of the pass: nothing, declare a pattern in the
+    current block scope, record a compiled grok site, or record a use() call site -/
+inductive Delta
+  | nop
+  | addPat (alias pat : Bytes)
+  | addGrok (site : Nat) (q : Bytes)
+  | addRef (site : Nat)
+  deriving Repr, Inhabited
+
+def Delta.apply (s : CheckSt) : Delta → CheckSt
+  | .nop => s
+  | .addPat alias pat => { s with pats := match s.pats with | sc :: rest => ((alias, pat) :: sc) :: rest | [] => [[(alias, pat)]] }
+  | .addGrok site q => { s with grok := (site, q) :: s.grok }
+  | .addRef site => { s with callRef := s.callRef ++ [site] }
+
+/-- result of a checker's decision (the state of the pass is only read) -/
+inductive DRes (α : Type)
+  | ok (a : α)
+  | err (e : PlErr)
+  | need (q : Bytes)
+  deriving Repr, Inhabited
+
+instance : Monad DRes where
+  pure a := .ok a
+  bind m f := match m with
+    | .ok a => f a
+    | .err e => .err e
+    | .need q => .need q
+
+/-- the decision of the `*Checking` functions of the registered builtins (and the harness's probes) -/
+def builtinCheckD (oracle : Bytes → Option Bytes) (file : Bytes) (c : CallInfo) (s : CheckSt) : DRes Delta :=
+  let cErr {α} (file : Bytes) (p : Pos) (m : String) : DRes α := .err (PlErr.new file p m)
+  let nop : DRes Delta := .ok .nop
   let argc := c.args.length
   let a (i : Nat) : Node := c.args.getD i (.nilLit Pos.invalid)
-  let key0 (pos : Pos) : CM Unit := if keyNameOk (a 0) then pure () else cErr file pos "key-name"
-  let ask (q : Bytes) : CM Bytes := fun s => match oracle q with | some r => .ok r s | none => .need q
+  let key0 (pos : Pos) : DRes Delta := if keyNameOk (a 0) then nop else cErr file pos "key-name"
+  let ask (q : Bytes) : DRes Bytes := match oracle q with | some r => .ok r | none => .need q
   match Fn.ofName c.name with
   | none => cErr file c.np "no-check-for-func"
   | some fn =>
     match fn with
-    | .exit | .p | .pr | .void => pure ()
+    | .exit | .p | .pr | .void => nop
     | .addKey => if argc > 2 ∨ argc < 1 then cErr file c.np "argc" else key0 (Node.start (a 0))
     | .getKey | .dropKey | .uppercase | .urlDecode =>
       if argc ≠ 1 then cErr file c.np "argc" else key0 (Node.start (a 0))
     | .setTag =>
       if argc ≠ 2 ∧ argc ≠ 1 then cErr file c.np "argc" else
       if !keyNameOk (a 0) then cErr file (Node.start (a 0)) "key-name" else
-      if argc = 2 ∧ !keyNameOk (a 1) then cErr file (Node.start (a 1)) "expect-strlit" else pure ()
+      if argc = 2 ∧ !keyNameOk (a 1) then cErr file (Node.start (a 1)) "expect-strlit" else nop
     | .rename =>
       if argc ≠ 2 then cErr file c.np "argc" else
       if !keyNameOk (a 0) then cErr file (Node.start (a 0)) "key-name" else
       (match a 1 with
-       | .attr _ _ _ | .ident _ _ => pure ()
+       | .attr _ _ _ | .ident _ _ => nop
        | _ => cErr file (Node.start (a 1)) "expect-ident")
     | .cast =>
       if argc ≠ 2 then cErr file c.np "argc" else
       if !keyNameOk (a 0) then cErr file (Node.start (a 1)) "key-name" else
       (match a 1 with
        | .strLit t _ =>
-         if t = B "bool" ∨ t = B "int" ∨ t = B "float" ∨ t = B "str" ∨ t = B "string" then pure ()
+         if t = B "bool" ∨ t = B "int" ∨ t = B "float" ∨ t = B "str" ∨ t = B "string" then nop
          else cErr file (Node.start (a 1)) "cast-type"
        | _ => cErr file (Node.start (a 1)) "expect-strlit")
     | .setMeasurement =>
       if argc ≠ 2 ∧ argc ≠ 1 then cErr file c.np "argc" else
       if !keyNameOk (a 0) then cErr file (Node.start (a 0)) "key-name" else
-      if argc = 2 ∧ !isBoolLit (a 1) then cErr file (Node.start (a 1)) "expect-boollit" else pure ()
-    | .len | .loadJson => if argc ≠ 1 then cErr file c.np "argc" else pure ()
+      if argc = 2 ∧ !isBoolLit (a 1) then cErr file (Node.start (a 1)) "expect-boollit" else nop
+    | .len | .loadJson => if argc ≠ 1 then cErr file c.np "argc" else nop
     | .use =>
       if argc ≠ 1 then cErr file c.np "argc" else
-      if isStrLit (a 0) then cMod fun s => { s with callRef := s.callRef ++ [c.site] }
+      if isStrLit (a 0) then pure (.addRef c.site)
       else cErr file (Node.start (a 0)) "expect-strlit"
     | .strfmt =>
       if argc < 2 then cErr file c.np "argc" else
       if !keyNameOk (a 0) then cErr file (Node.start (a 0)) "key-name" else
-      if !isStrLit (a 1) then cErr file (Node.start (a 1)) "expect-strlit" else pure ()
+      if !isStrLit (a 1) then cErr file (Node.start (a 1)) "expect-strlit" else nop
     | .printf =>
       if argc < 1 then cErr file c.np "argc" else key0 (Node.start (a 0))
     | .trim =>
       if argc < 1 ∨ argc > 2 then cErr file c.np "argc" else
       if !keyNameOk (a 0) then cErr file (Node.start (a 0)) "key-name" else
-      if argc = 2 ∧ !isStrLit (a 1) then cErr file (Node.start (a 1)) "expect-strlit" else pure ()
+      if argc = 2 ∧ !isStrLit (a 1) then cErr file (Node.start (a 1)) "expect-strlit" else nop
     | .replace =>
       if argc ≠ 3 then cErr file c.np "argc" else
       if !keyNameOk (a 0) then cErr file (Node.start (a 0)) "key-name" else
       if !isStrLit (a 1) then cErr file (Node.start (a 1)) "expect-strlit" else
-      if !isStrLit (a 2) then cErr file (Node.start (a 2)) "expect-strlit" else pure ()
+      if !isStrLit (a 2) then cErr file (Node.start (a 2)) "expect-strlit" else nop
     | .addPattern =>
       if argc ≠ 2 then cErr file c.np "argc" else
       match a 0, a 1 with
       | .strLit alias _, .strLit pat _ => do
-        let s ← cGet
         let r ← ask (B "grokdenorm:" ++ encodeDefs (visiblePats s) ++ [58] ++ hexOf pat)
-        if (splitAnswer r).1 then
-          cMod fun s => { s with pats := match s.pats with | sc :: rest => ((alias, pat) :: sc) :: rest | [] => [[(alias, pat)]] }
+        if (splitAnswer r).1 then pure (.addPat alias pat)
         else cErr file c.np "pattern"
       | .strLit _ _, _ => cErr file (Node.start (a 1)) "expect-strlit"
       | _, _ => cErr file c.np "expect-strlit"
@@ -139,28 +168,35 @@ def builtinCheck (oracle : Bytes → Option Bytes) (file : Bytes) (c : CallInfo)
       if !keyNameOk (a 0) then cErr file (Node.start (a 0)) "key-name" else
       match a 1 with
       | .strLit pat _ => do
-        let s ← cGet
         let q := encodeDefs (visiblePats s) ++ [58] ++ hexOf pat
         let r ← ask (B "grokcompile:" ++ q)
-        if (splitAnswer r).1 then cMod fun s => { s with grok := (c.site, q) :: s.grok }
+        if (splitAnswer r).1 then pure (.addGrok c.site q)
         else cErr file c.np "pattern"
       | _ => cErr file (Node.start (a 1)) "expect-strlit"
     | .datetime =>
       if argc ≠ 3 then cErr file c.np "argc" else
       if !keyNameOk (a 0) then cErr file c.np "key-name" else
       if !isStrLit (a 1) then cErr file (Node.start (a 1)) "expect-strlit" else
-      if !isStrLit (a 2) then cErr file (Node.start (a 2)) "expect-strlit" else pure ()
+      if !isStrLit (a 2) then cErr file (Node.start (a 2)) "expect-strlit" else nop
     | .defaultTime =>
       if argc < 1 then cErr file c.np "argc" else
       if !keyNameOk (a 0) then cErr file (Node.start (a 0)) "key-name" else
-      if argc > 1 ∧ !isStrLit (a 1) then cErr file (Node.start (a 1)) "expect-strlit" else pure ()
+      if argc > 1 ∧ !isStrLit (a 1) then cErr file (Node.start (a 1)) "expect-strlit" else nop
     | .xml =>
       if argc ≠ 3 then cErr file c.np "argc" else
       if !keyNameOk (a 0) then cErr file (Node.start (a 0)) "key-name" else
       if !isStrLit (a 1) then cErr file (Node.start (a 1)) "expect-strlit" else
-      if !keyNameOk (a 2) then cErr file (Node.start (a 2)) "expect-keyname" else pure ()
+      if !keyNameOk (a 2) then cErr file (Node.start (a 2)) "expect-keyname" else nop
     | .sqlCover =>
       if argc ≠ 1 then cErr file c.np "argc" else key0 (Node.start (a 0))
+
+
+/-- the `*Checking` functions as steps of the pass -/
+def builtinCheck (oracle : Bytes → Option Bytes) (file : Bytes) (c : CallInfo) : CM Unit := fun s =>
+  match builtinCheckD oracle file c s with
+  | .ok d => .ok () (d.apply s)
+  | .err e => .err e
+  | .need q => .need q
 
 section
 -- `registered name` (FuncCall table); `fcheck`: the checker of a registered function, none = no checker
